@@ -510,6 +510,19 @@ def routing_obligations(repo, chk, rule, subset):
         cs = calls(wo, lambda n: norm(n.func) == "WorkingFrame")
         ob("frame-created-for-the-variable", wo, len(cs) == 1 and args_of(cs[0], wo) == [ps[1], ps[2], ps[3], "self.accumulators"],
            f"work_on builds the frame from (name, key, category) and this interactor's accumulators: {[args_of(c, wo) for c in cs]}")
+        sn = repo.func("interpret.Capture.snapshot")
+        rets = [n for n in walk_local(sn.node) if isinstance(n, ast.Return)]
+        made = [n for n in walk_local(sn.node) if isinstance(n, ast.Assign) and len(n.targets) == 1 and isinstance(n.targets[0], ast.Name) and norm(n.value) == "Capture(self.element)"]
+        cp = made[0].targets[0].id if len(made) == 1 else None
+        st = {norm(n.targets[0]): norm(n.value) for n in walk_local(sn.node) if isinstance(n, ast.Assign) and len(n.targets) == 1 and isinstance(n.targets[0], ast.Attribute)}
+        ok = cp is not None and len(rets) == 1 and rets[0].value is not None and norm(rets[0].value) == cp and st == {f"{cp}.names": "list(self.names)", f"{cp}.values": "list(self.values)"}
+        ob("what-a-subscriber-receives-is-a-frozen-copy", sn, ok,
+           f"snapshot() returns a NEW Capture of the same element holding copies of the name and value lists (returns {[norm(r.value) for r in rets if r.value is not None]}, fills {st}): "
+           f"an event delivered earlier in a call is not rewritten by the later bindings of the same capture")
+        cs_ = repo.func("interpret.BaseAccumulator._call_with_snapshot")
+        snaps = [n for n in walk_local(cs_.node) if isinstance(n, (ast.DictComp,)) and isinstance(n.value, ast.Call) and isinstance(n.value.func, ast.Attribute) and n.value.func.attr == "snapshot"]
+        ob("handlers-are-called-with-snapshots", cs_, len(snaps) == 1 and "build()" in norm(snaps[0].generators[0].iter),
+           f"the handler's argument is built as {{name: capture.snapshot()}} over build(): {[norm(x)[:80] for x in snaps]}")
     if subset == "offer":
         wi = repo.func("interpret.WorkingFrame.intercept")
         e, a = acc_loop(wi)
@@ -530,3 +543,67 @@ def routing_obligations(repo, chk, rule, subset):
         shapes = sorted(tuple(args_of(c, nf) or ["<keywords>"]) for c in cs)
         ob("handler-receives-the-wrapper's-arguments-in-order", nf, shapes == sorted([tuple(ps[:1]), tuple(ps[:3])]),
            f"the checked wrapper forwards (results) or, with pass_info, (results, acc, element) -- its own parameters in order: {shapes}")
+
+
+def build_precedence_obligations(repo, chk, rule, why):
+    """BaseAccumulator.build merges the capture tables from the accumulator itself up through its parents; where the same capture name
+    exists at two levels (outer(x=1) > inner > x, recursion) the OUTER entry must win: that is the value a condition written on the
+    outer level is checked against, and the context value reported.  Recognised merges inside the parent walk, with R the result and T
+    the table of the level reached: R.update(T) / R |= T / R = {**R, **T} / R = R | T  (outer wins);  R = {**T, **R} / T | R (inner wins)."""
+    import ast
+    from ..core import norm, walk_local
+    bd = repo.func("interpret.BaseAccumulator.build")
+    loops = [n for n in walk_local(bd.node) if isinstance(n, ast.While)]
+    verdict, detail = None, "no parent walk (`while <level>: ... <level> = <level>.parent`) found"
+    if len(loops) == 1 and isinstance(loops[0].test, ast.Name):
+        cur = loops[0].test.id
+        steps = [n for n in ast.walk(loops[0]) if isinstance(n, ast.Assign) and norm(n) == f"{cur} = {cur}.parent"]
+        starts = [n for n in walk_local(bd.node) if isinstance(n, ast.Assign) and norm(n) == f"{cur} = self"]
+        T = f"{cur}.captures"
+        merges = []
+        for n in ast.walk(loops[0]):
+            if isinstance(n, ast.Expr) and isinstance(n.value, ast.Call) and isinstance(n.value.func, ast.Attribute) and n.value.func.attr == "update" \
+                    and len(n.value.args) == 1 and norm(n.value.args[0]) == T and isinstance(n.value.func.value, ast.Name):
+                merges.append((n.value.func.value.id, "outer"))
+            elif isinstance(n, ast.Assign) and len(n.targets) == 1 and isinstance(n.targets[0], ast.Name):
+                R, v = n.targets[0].id, n.value
+                parts = None
+                if isinstance(v, ast.Dict) and all(k is None for k in v.keys) and len(v.values) == 2:
+                    parts = [norm(x) for x in v.values]
+                elif isinstance(v, ast.BinOp) and isinstance(v.op, ast.BitOr):
+                    parts = [norm(v.left), norm(v.right)]
+                if parts == [R, T]:
+                    merges.append((R, "outer"))
+                elif parts == [T, R]:
+                    merges.append((R, "inner"))
+        rets = [norm(r.value) for r in walk_local(bd.node) if isinstance(r, ast.Return) and r.value is not None]
+        if len(steps) == 1 and len(starts) == 1 and len(merges) == 1 and merges[0][0] in rets:
+            verdict = merges[0][1]
+            detail = f"walk from self to the root, each level merged so that the {verdict} level wins"
+        else:
+            detail = f"walk over `{cur}`: {len(steps)} steps to the parent, {len(starts)} starts at self, merges {merges}, returns {rets}"
+    chk.ob(rule, "interpret.BaseAccumulator.build:an-outer-level's-capture-wins-over-an-inner-one-of-the-same-name", verdict == "outer", bd.where,
+           f"the record handed to handlers and to the value check takes, for a capture name present at several levels of the call path, the entry of the outermost level, so {why} ({detail})")
+
+
+def annotation_cache_obligations(repo, chk, rule):
+    """The memo of evaluated annotations lives and dies with one transformer (one instrumentation of one function) and is keyed by the
+    annotation node itself: a value computed for one function, or at one moment, is never served to another (a forward reference that
+    failed once must be evaluated again when another function is instrumented later)."""
+    import ast
+    from ..core import norm, walk_local
+    ini = repo.func("transform.PteraTransformer.__init__")
+    st = [n for n in walk_local(ini.node) if isinstance(n, ast.Assign) and len(n.targets) == 1 and norm(n.targets[0]) == "self.evalcache"]
+    fresh = len(st) == 1 and isinstance(st[0].value, ast.Dict) and all(isinstance(k, ast.Constant) for k in st[0].value.keys)
+    ev = repo.func("transform.PteraTransformer._evaluate")
+    p = ev.node.args.args[1].arg
+    keys = []
+    for n in walk_local(ev.node):
+        if isinstance(n, ast.Subscript) and norm(n.value) == "self.evalcache":
+            keys.append(norm(n.slice))
+        elif isinstance(n, ast.Compare) and len(n.ops) == 1 and isinstance(n.ops[0], (ast.In, ast.NotIn)) and norm(n.comparators[0]) == "self.evalcache":
+            keys.append(norm(n.left))
+    others = [q for q, f2 in repo.functions.items() if q not in (ini.qual, ev.qual) for n in walk_local(f2.node) if isinstance(n, ast.Attribute) and n.attr == "evalcache"]
+    chk.ob(rule, "transform.PteraTransformer:annotation-values-are-memoised-per-instrumentation-and-per-node", fresh and bool(keys) and set(keys) == {p} and not others, ev.where,
+           f"the cache of evaluated annotations is a new dict for every transformer (`{norm(st[0]) if st else 'no store'}`), used only by _evaluate and keyed by the annotation node "
+           f"itself (keys {sorted(set(keys))}): no value is carried over to another function or another moment" + (f"; also touched in {others}" if others else ""))
